@@ -123,7 +123,29 @@ Definition in_int_range (unsigned : bool) (w v : Z) : Prop :=
 Definition old_int64_min_token : str :=
   [45; 57; 50; 50; 51; 51; 55; 50; 48; 51; 54; 56; 53; 52; 55; 55; 53; 56; 48; 56; 76; 76]%N.
 
-Definition const_float_rational (n d : Z) : option (Z * Z) := parse_fexpr (filter_literal_float_expr (n, d)).
+(* floating constants.  `rf` is the ORACLE for Python's repr(float(Fraction)) (shortest round-trip decimal of the correctly rounded
+   value; library behaviour, not modelled): the translated helper calls it only when an operand of the division would not be a valid
+   double constant. *)
+Definition const_float_expr (rf : (Z * Z) -> str) (n d : Z) : str := filter_literal_float_expr rf (n, d).
+
+(* exact value of the rendered expression as the division / integral form ... *)
+Definition const_float_rational (rf : (Z * Z) -> str) (n d : Z) : option (Z * Z) := parse_fexpr (const_float_expr rf n d).
+
+(* ... or as whatever form it has (division, integral, or a decimal floating constant from the oracle) *)
+Definition const_float_value (rf : (Z * Z) -> str) (n d : Z) : option (Z * Z) :=
+  match parse_fexpr (const_float_expr rf n d) with
+  | Some r => Some r
+  | None => parse_fdec (const_float_expr rf n d)
+  end.
+
+(* the operands of the division form are rendered only below this bound (2^1023 < dbl_lit_limit: valid double constants) *)
+Definition division_operand_limit : Z := 2 ^ 1023.
+Definition division_rendered (n d : Z) : bool := (Z.abs n <? division_operand_limit) && (d <? division_operand_limit).
+
+(* what the code did BEFORE the repair of F-FLOAT-LIT-RANGE (commit bc63e58): always the division (hand copy, documentation only) *)
+Definition old_filter_literal_float_expr (value : Z * Z) : str :=
+  if snd value =? 1 then py_str_int (fst value) ++ [46; 48]%N
+  else [40%N] ++ py_str_int (fst value) ++ [46; 48; 32; 47; 32]%N ++ py_str_int (snd value) ++ [46; 48; 41]%N.
 
 (* requests of the extracted driver *)
 Definition std_bits_of (w : Z) : option Z := filter_to_standard_bit_length {| pty_kind := KUInt; pty_bit_length := w |}.
@@ -138,8 +160,10 @@ Definition z_of_dec (s : str) : Z :=
 Definition drv_lit (unsigned : bool) (w : Z) (v : str) : str * list (option (ctype * Z)) :=
   let z := z_of_dec v in (const_int_token unsigned w z, map (fun dm => const_int_denotes dm unsigned w z) dmodels).
 
-Definition drv_flt (n d : str) : str * option (Z * Z) :=
-  let v := (z_of_dec n, z_of_dec d) in (filter_literal_float_expr v, parse_fexpr (filter_literal_float_expr v)).
+Definition drv_flt (oracle n d : str) : str * option (Z * Z) * bool :=
+  let rf := fun _ : Z * Z => oracle in
+  (const_float_expr rf (z_of_dec n) (z_of_dec d), const_float_value rf (z_of_dec n) (z_of_dec d),
+   division_rendered (z_of_dec n) (z_of_dec d)).
 
 Definition drv_capchecks (t : ty) (cap_bytes : nat) : option bool * option bool :=
   (capcheck_refuses c_capcheck cap_bytes t, capcheck_refuses cpp_capcheck cap_bytes t).
@@ -148,7 +172,8 @@ Definition comp_fields (t : ty) : list ty := match t with TComp _ fs _ => fs | _
 Definition is_array (t : ty) : bool := match t with TFix _ _ | TVar _ _ => true | _ => false end.
 Definition is_union (t : ty) : bool := match t with TComp true _ _ => true | _ => false end.
 
-(* finding F-FLOAT-LIT-RANGE: both operands of the rendered floating constant expression must be floating constants within the
-   range of double; false = the expression contains an out-of-range floating constant *)
-Definition const_float_operands_in_range (n d : Z) : bool :=
-  match const_float_rational n d with Some (a, b) => negb (float_lit_overflows a b) | None => false end.
+(* finding F-FLOAT-LIT-RANGE (fixed in /repo by bc63e58): both operands of a rendered division must be floating constants within
+   the range of double; false = the expression contains an out-of-range floating constant *)
+Definition operands_in_range (r : option (Z * Z)) : bool :=
+  match r with Some (a, b) => negb (float_lit_overflows a b) | None => false end.
+Definition old_const_float_operands_in_range (n d : Z) : bool := operands_in_range (parse_fexpr (old_filter_literal_float_expr (n, d))).
